@@ -9,8 +9,11 @@ Model of the MaxLFQ column (picked_group_fdr/columns/lfq.py), stage A, exact ove
                                       (generic in the number type: run at `Rat`, specified at `ℝ`)
 
 Stage B (scipy `lsqr`, `np.log`, `np.exp`) is not executed here; it is specified in
-`Props/C11.lean` (`IsLeastSquares`).  Experiments are indices `0 … n-1` (the model has no
-experiment names).  SILAC channels are not modelled (`numSilacChannels = 0`).
+`Props/C11.lean` (`IsLeastSquares`).  In stage A experiments are indices `0 … n-1`.
+The last section models the WRITTEN table: evidence rows with `Experiment` / `Fraction` cells or a design
+override, the experiment list and its order, SILAC channels (sample index `e * C + c`), the identified-precursor
+filter, and the `LFQ Intensity [<channel> ]<experiment>` header names zipped with the values
+(`tableStageA`, `lfqHeaders`, `namedColumns`, `experimentsOf`, `toRows`).
 Executable, total, Mathlib-free.
 -/
 namespace PgFdr.C11
@@ -258,5 +261,199 @@ def stageA (o : Opts) (l : List Prec) : StageA :=
     validCols := (List.range o.n).filter (validCol o.minRatios col)
     eqs := ps.map (pairEq o.stab o.cutoff l col)
     system := buildSystem o.n ps }
+
+/-! ## The written table: evidence rows with fractions, SILAC channels, LFQ column names
+
+`parsers/maxquant.parse_mq_evidence_file` (Experiment, Fraction, Intensity, Intensity L [M] H, PEP, Raw file),
+`quant/maxquant.add_precursor_quants` (experiment list; `--experimental_design_file` / `--file_list_file`
+override experiment and fraction by raw file), `writers/base._retain_only_identified_precursors`,
+`LFQIntensityColumns.append_headers` / `append_columns`, and `_getPeptideIntensities` with
+`numSilacChannels > 0`.  A labelled sample is (experiment `e`, channel `c`) with column index `e * C + c`. -/
+
+/-- everything of stage A after the selection: `sel` are the precursors whose intensities fill the matrix,
+    `lstab` is the list the large-ratio stabilisation reads.  `stageA o l = stageAWith o (selected o.cutoff l) l`
+    by definition (`stageA_eq_with`). -/
+def stageAWith (o : Opts) (sel lstab : List Prec) : StageA :=
+  let col := column sel
+  let ps := pairs o.minRatios o.n o.graph o.minSamples col
+  { keys := rowKeys sel
+    cols := (List.range o.n).map col
+    total := total sel
+    validCols := (List.range o.n).filter (validCol o.minRatios col)
+    eqs := ps.map (pairEq o.stab o.cutoff lstab col)
+    system := buildSystem o.n ps }
+
+/-- a `PrecursorQuant` with its SILAC channel intensities (`silac_intensities`; `[]` = label-free);
+    `base.exp` is the index of the EXPERIMENT, `base.intensity` the `Intensity` cell -/
+structure Row where
+  base : Prec
+  silac : List Rat
+deriving DecidableEq, Repr, Inhabited
+
+def rowLe (a b : Row) : Bool := precLe a.base b.base
+
+/-- `firstsAux` on rows: the decision reads only the base fields, the channel intensities ride along -/
+def firstsAuxR : Option Row → List Row → List Row
+  | _, [] => []
+  | none, p :: r => p :: firstsAuxR (some p) r
+  | some q, p :: r => if sameGroup q.base p.base then firstsAuxR (some q) r else p :: firstsAuxR (some p) r
+
+/-- filter on `Intensity > 0` and the PEP, stable sort by `orderByPEP`, first per
+    (peptide, charge, experiment, fraction) — exactly `selected`, on rows -/
+def selectedRows (cutoff : Rat) (l : List Row) : List Row :=
+  firstsAuxR none (isort rowLe (l.filter (fun r => keep cutoff r.base)))
+
+/-- `for silacIdx, silacIntensity in enumerate(precursor.silac_intensities)`: one entry per channel,
+    sample index `expIdx * numSilacChannels + silacIdx` -/
+def expandFrom (b : Prec) (C : Nat) : Nat → List Rat → List Prec
+  | _, [] => []
+  | c, x :: xs => { b with exp := b.exp * C + c, intensity := x } :: expandFrom b C (c + 1) xs
+
+/-- the per-sample entries of one precursor: itself when label-free, one per channel with SILAC -/
+def expandRow (C : Nat) (r : Row) : List Prec := if C = 0 then [r.base] else expandFrom r.base C 0 r.silac
+
+/-- `writers/base._retain_only_identified_precursors`: a row stays iff some row of the same
+    (peptide, charge) has a PEP `<= cutoff` (a NaN PEP never identifies) -/
+def identifiedKey (cutoff : Rat) (rows : List Row) (k : String × Int) : Bool :=
+  rows.any (fun r => (r.base.peptide, r.base.charge) == k &&
+    (match r.base.pep with
+     | some q => decide (q ≤ cutoff)
+     | none => false))
+
+def retainIdentified (cutoff : Rat) (rows : List Row) : List Row :=
+  rows.filter (fun r => identifiedKey cutoff rows (r.base.peptide, r.base.charge))
+
+/-- number of LFQ samples: `len(experiment_to_idx_map) * max(1, num_silac_channels)` -/
+def numSamples (n C : Nat) : Nat := n * max 1 C
+
+/-- the per-sample precursors that fill the intensity matrix: identified-precursor filter, selection of the best
+    row per (peptide, charge, experiment, fraction), one entry per channel -/
+def tableSel (cutoff : Rat) (C : Nat) (rows : List Row) : List Prec :=
+  (selectedRows cutoff (retainIdentified cutoff rows)).flatMap (expandRow C)
+
+/-- the per-sample precursors the large-ratio stabilisation reads (`_get_intensities`,
+    `_unique_peptide_counts_per_experiment` see ALL retained rows, not only the selected ones) -/
+def tableStab (cutoff : Rat) (C : Nat) (rows : List Row) : List Prec :=
+  (retainIdentified cutoff rows).flatMap (expandRow C)
+
+/-- stage A of one protein group of the written table: `o.n` = number of EXPERIMENTS, `C` = number of
+    SILAC channels (0 = label-free); the FastLFQ graph `o.graph` is used as the code uses it
+    (`has_edge(i, j)` on SAMPLE indices) -/
+def tableStageA (o : Opts) (C : Nat) (rows : List Row) : StageA :=
+  stageAWith { o with n := numSamples o.n C } (tableSel o.cutoff C rows) (tableStab o.cutoff C rows)
+
+/-! ### fractions: what a cell of the intensity matrix must hold -/
+
+/-- membership in the cell (row key `k`, sample `s`) — the filter of `cell` -/
+def inCell (k : String × Int) (s : Nat) (p : Prec) : Bool := (p.peptide, p.charge) == k && p.exp == s
+
+/-- the fractions in which precursor `k` has an identified, quantified row in sample `s` -/
+def fractionsOf (cutoff : Rat) (l : List Prec) (k : String × Int) (s : Nat) : List Int :=
+  nub ((l.filter (fun p => keep cutoff p && inCell k s p)).map (·.fraction))
+
+def rmax (a b : Rat) : Rat := if a ≤ b then b else a
+
+def maxOf : List Rat → Rat
+  | [] => 0
+  | x :: xs => rmax x (maxOf xs)
+
+/-- the intensity one (peptide, charge, experiment, fraction) group contributes: the highest intensity among
+    its identified, quantified rows -/
+def groupBest (cutoff : Rat) (l : List Prec) (k : String × Int) (s : Nat) (f : Int) : Rat :=
+  maxOf ((l.filter (fun p => keep cutoff p && inCell k s p && p.fraction == f)).map (·.intensity))
+
+/-- `aggregateFractions`: per (precursor, sample) the sum over the fractions of the group intensities -/
+def aggregateFractions (cutoff : Rat) (l : List Prec) (k : String × Int) (s : Nat) : Rat :=
+  ((fractionsOf cutoff l k s).map (groupBest cutoff l k s)).sum
+
+/-! ### column names -/
+
+/-- `sum_and_ibaq.get_silac_channels`; `none` = "Found a number of SILAC channels not equal to 2 or 3" -/
+def silacChannels : Nat → Option (List (List Char))
+  | 0 => some []
+  | 2 => some [['L'], ['H']]
+  | 3 => some [['L'], ['M'], ['H']]
+  | _ => none
+
+def lfqPrefix : List Char := "LFQ Intensity ".toList
+
+/-- `"LFQ Intensity " + silac_channel + " " + experiment` / `"LFQ Intensity " + experiment` -/
+def lfqHeader (ch : Option (List Char)) (e : List Char) : List Char :=
+  match ch with
+  | none => lfqPrefix ++ e
+  | some c => lfqPrefix ++ (c ++ ' ' :: e)
+
+/-- `LFQIntensityColumns.append_headers`: experiment-major, channels inside -/
+def lfqHeaders (chans : List (List Char)) (exps : List (List Char)) : List (List Char) :=
+  exps.flatMap (fun e => if chans.isEmpty then [lfqHeader none e] else chans.map (fun c => lfqHeader (some c) e))
+
+/-- what `pgr.extend(intensities)` appends: the return value of `_getLFQIntensities`, by sample index -/
+def lfqValues {α : Type} (n C : Nat) (v : Nat → α) : List α := (List.range (numSamples n C)).map v
+
+/-- `LFQIntensityColumns.is_valid` -/
+def lfqValid (n : Nat) (tmt : Int) : Bool := decide (1 < n) && decide (tmt ≤ 0)
+
+/-- the LFQ part of one written row: header names zipped with the values, as `ProteinGroupResults.write`
+    pairs `headers` with `extraColumns` by position -/
+def namedColumns {α : Type} (chans : List (List Char)) (exps : List (List Char)) (v : Nat → α) :
+    List (List Char × α) :=
+  (lfqHeaders chans exps).zip (lfqValues exps.length chans.length v)
+
+/-! ### from evidence rows to precursors -/
+
+/-- the cells of one evidence row the quantification reads (`fraction = -1`: no `Fraction` column) -/
+structure EvRow where
+  peptide : String
+  charge : Int
+  rawFile : String
+  experiment : String
+  fraction : Int
+  intensity : Rat
+  silac : List Rat
+  pep : Option Rat
+deriving DecidableEq, Repr, Inhabited
+
+/-- one line of the experimental design after `normalize_experimental_design`: Name (stem), Experiment, Fraction -/
+abbrev Design := List (String × String × Int)
+
+/-- `file_mapping[raw_file]` -/
+def designLookup (d : Design) (raw : String) : Option (String × Int) :=
+  match d.find? (fun x => x.1 == raw) with
+  | some x => some x.2
+  | none => none
+
+def strLe (a b : String) : Bool := decide (a < b) || a == b
+
+/-- `protein_group_results.experiments`: with a design `experimental_design["Experiment"].unique()` (order of
+    first appearance), else `sorted(parsed_experiments)` -/
+def experimentsOf (d : Option Design) (rows : List EvRow) : List String :=
+  match d with
+  | some d => nub (d.map (fun x => x.2.1))
+  | none => nub (isort strLe (rows.map (·.experiment)))
+
+def indexOfStr (e : String) : List String → Option Nat
+  | [] => none
+  | x :: r => if x == e then some 0 else (indexOfStr e r).map (· + 1)
+
+/-- one evidence row as a MaxLFQ precursor: experiment and fraction overridden by the design when there is one
+    (`none` = the raw file is not in the design, a `KeyError`, or the experiment is unknown) -/
+def toRow (d : Option Design) (exps : List String) (r : EvRow) : Option Row :=
+  let ef : Option (String × Int) := match d with
+    | some d => designLookup d r.rawFile
+    | none => some (r.experiment, r.fraction)
+  match ef with
+  | none => none
+  | some (e, f) =>
+    match indexOfStr e exps with
+    | none => none
+    | some i => some { base := { peptide := r.peptide, charge := r.charge, exp := i, fraction := f,
+                                 intensity := r.intensity, pep := r.pep }, silac := r.silac }
+
+def toRows (d : Option Design) (exps : List String) : List EvRow → Option (List Row)
+  | [] => some []
+  | r :: rest =>
+    match toRow d exps r, toRows d exps rest with
+    | some x, some xs => some (x :: xs)
+    | _, _ => none
 
 end PgFdr.C11
